@@ -318,3 +318,57 @@ func init() {
 		Assumptions: []string{"the real logs cannot be impersonated (their keys are not ours), so feeders are only observed up to their first request", "a panic in a goroutine started by Main kills the worker process; the driver reports that as the violation for this property"},
 	})
 }
+
+// mainRefusesConfig starts the real omniwitness.Main on the given log configuration (written as YAML into ConfigLogs, all
+// feeders off) inside a bubble and reports whether it returned an error within five simulated seconds instead of serving.
+func mainRefusesConfig(t *testing.T, p *Plan, w *World, cfg omniwitness.LogConfig) (refused bool, merr error, infra string) {
+	var y strings.Builder
+	y.WriteString("Logs:\n")
+	for _, l := range cfg.Logs {
+		fmt.Fprintf(&y, "  - Origin: %s\n    URL: %s\n    PublicKey: %s\n    Feeder: none\n", yamlQuote(l.Origin), yamlQuote(l.URL), yamlQuote(l.PublicKey))
+	}
+	saved := omniwitness.ConfigLogs
+	defer func() { omniwitness.ConfigLogs = saved }()
+	defer func() {
+		if x := recover(); x != nil {
+			infra = fmt.Sprintf("bubble ended abnormally: %v", x)
+		}
+	}()
+	synctest.Test(t, func(t *testing.T) {
+		pinGlobalRand(p.Seed)
+		omniwitness.ConfigLogs = []byte(y.String())
+		signers, _ := w.Signers()
+		ln := newMemListener()
+		ctx, cancel := context.WithCancel(context.Background())
+		done := make(chan error, 1)
+		go func() {
+			done <- omniwitness.Main(ctx, omniwitness.OperatorConfig{WitnessKeys: signers, FeedInterval: time.Minute},
+				inmemory.NewPersistence(), ln, &http.Client{Transport: NewSimNet(), Timeout: 10 * time.Second})
+		}()
+		time.Sleep(5 * time.Second)
+		synctest.Wait()
+		returned := false
+		select {
+		case merr = <-done:
+			returned, refused = true, merr != nil
+		default:
+		}
+		cancel()
+		for i := 0; i < 120 && !returned; i++ {
+			synctest.Wait()
+			select {
+			case <-done:
+				returned = true
+			default:
+				time.Sleep(time.Second)
+			}
+		}
+		ln.Close()
+		time.Sleep(2 * time.Minute)
+		synctest.Wait()
+		if !returned {
+			infra = "Main did not stop within two simulated minutes of its context ending"
+		}
+	})
+	return
+}
